@@ -293,6 +293,88 @@ def branch_oracle(case, out):
     return None
 
 
+def compression_stages(ctx, dist):
+    """deflate / inflate stages (zlib-backed: no Gallina counterpart, implementation only): chunking independence of
+    what is delivered after inflation, exact capacity boundary of a buffer sink behind the compressor (the overflow
+    happens inside done()), downstream faults reach the head"""
+    import zlib
+    rep = ctx["rep"]
+    rnd = random.Random(ctx["seed"] + 7)
+    h = os.path.join(ctx["bdir"], "h")
+    datas = [b"", b"a", b"abc" * 200, bytes(rnd.getrandbits(8) for _ in range(3000)), (b"compressible " * 1600)[:20000]]
+    if ctx["tier"] != "quick":
+        datas += [bytes(rnd.getrandbits(8) for _ in range(70000)), b"z" * 300000]
+
+    def chunkings(n):
+        out = ["-" if n == 0 else str(n)]
+        if n > 1:
+            out += [",".join(["1"] * n) if n <= 64 else ",".join(str(x) for x in rand_chunks(rnd, n, 30)), ",".join(str(x) for x in rand_chunks(rnd, n, 5)), "%d,%d" % (1, n - 1)]
+        return out
+    first = ["chain\tdef(malloc)\t%s\t%s" % (c, hx(d)) for d in datas for c in chunkings(len(d))]
+    fo = vlib.run_cases(h, first)
+    comp = {}
+    n = len(first)
+    for c, o in zip(first, fo):
+        f = c.split("\t")
+        d = unhx(f[3])
+        oo = o.split(" ")
+        if o.startswith("CRASH") or len(oo) < 3 or oo[1] != "T":
+            rep.violation("deflate-stage-failed", "def(malloc) fed as %s did not succeed: %s" % (f[2], o[:80]), {"case": c[:400]})
+            continue
+        z = unhx(oo[2])
+        try:
+            ok = zlib.decompress(z, -15) == d
+        except Exception:
+            ok = False
+        if not ok:
+            rep.violation("deflate-stream-wrong", "what def(malloc) fed as %s delivers does not inflate to the input" % f[2], {"case": c[:400], "implementation": o[:200]})
+        comp.setdefault(f[3], z)
+    second, want = [], {}
+
+    def add(shape, chunks, data, verdict, content=None, what=""):
+        c = "chain\t%s\t%s\t%s" % (shape, chunks, hx(data))
+        second.append(c)
+        want[c] = (verdict, content, what)
+    for d in datas:
+        z = comp.get(hx(d))
+        if z is None:
+            continue
+        L = len(z)
+        for ch in chunkings(len(d))[:3]:
+            add("def(buffer:%d)" % L, ch, d, "T", None, "buffer of exactly the compressed size")
+            if L > 0:
+                add("def(buffer:%d)" % (L - 1), ch, d, "F", None, "buffer one octet too small: the overflow happens inside done()")
+                add("def(buffer:0)", ch, d, "F", None, "buffer of capacity 0")
+            add("def(inf(malloc))", ch, d, "T", d, "compress then decompress")
+            add("def(faulty:0:0)", ch, d, "F", None, "sink rejects the first buffer")
+            add("def(faulty:-1:1)", ch, d, "F", None, "sink fails at done")
+            add("def(b64enc(faulty:-1:1))", ch, d, "F", None, "sink fails at done behind another stage")
+        for ch in chunkings(L)[:4]:
+            add("inf(malloc)", ch, z, "T", d, "inflate, chunked")
+            if len(d) > 0:
+                add("inf(buffer:%d)" % (len(d) - 1), ch, z, "F", None, "inflate into a buffer one octet too small")
+                add("inf(faulty:0:0)", ch, z, "F", None, "sink rejects the first buffer")
+            add("inf(faulty:-1:1)", ch, z, "F", None, "sink fails at done")
+    so = vlib.run_cases(h, second)
+    for c, o in zip(second, so):
+        verdict, content, what = want[c]
+        f = c.split("\t")
+        if o.startswith("CRASH"):
+            rep.violation("crash:compression:" + f[1].split("(")[0], "crash: " + o[:200], {"case": c[:400]})
+            continue
+        oo = o.split(" ")
+        nchunks = 0 if f[2] == "-" else len(f[2].split(","))
+        got = "T" if (oo[1] == "T" and int(oo[0]) == nchunks) else "F"
+        if got != verdict:
+            rep.violation("compression-stage-verdict:%s:%s" % (f[1], "accepts" if got == "T" else "refuses"),
+                          "%s (%s) fed as %s: the head reports %s, expected %s" % (f[1], what, f[2][:40], "success" if got == "T" else "failure", "success" if verdict == "T" else "failure"),
+                          {"case": c[:600], "implementation": o[:200]})
+        elif verdict == "T" and content is not None and (len(oo) < 3 or unhx(oo[2]) != content):
+            rep.violation("compression-stage-content:" + f[1], "%s (%s) fed as %s delivers other bytes than the one-shot result" % (f[1], what, f[2][:40]), {"case": c[:600], "implementation": o[:200]})
+    dist["deflate / inflate stages (implementation only)"] = n + len(second)
+    return n + len(second)
+
+
 def nontrivial(case, out):
     f = case.split("\t")
     return f[3] != "-" and f[2] != "-"
@@ -314,10 +396,12 @@ def correspond(ctx):
     for a, o in zip(alone, outs):
         ALONE[a] = o
     dist["multiplexer branches also run on their own"] = len(alone)
+    ncomp = compression_stages(ctx, dist)
     st = runner.standard(
         ctx, cases, Oracle(), nontrivial,
         rule="chain shapes from the public constructors (+ a harness fault-injecting sink) x data x compositions of the length into feed sizes; non-trivial = non-empty data and at least one feed; distinct = distinct case lines",
         dist=dist,
         exhaustive_subspaces=["all compositions of every length <= %d for b64enc/b64dec/2 plex shapes" % (9 if ctx["tier"] == "quick" else 12),
                               "fault at every downstream feed index 0..7 and at done for 10 shapes"])
+    st["evaluations"] += ncomp
     return st
